@@ -7,11 +7,26 @@ ROOT = os.path.dirname(os.path.dirname(os.path.abspath(__file__)))
 
 CLAIMED = {
     # id: (technique, level text, level note, design section)
+    "C01": (
+        "Rocq proof over an exact executable model of every class's __hash__/__eq__ (64-bit wrap-around arithmetic, type codes regenerated from type_codes.inc) + bit-exact correspondence of hash values and eq matrices against the rebuilt library",
+        "Unbounded theorems over the modelled expression kinds (numbers of every kind, symbols, dummies, constants, sums, products, powers, one-/two-/multi-argument functions, function symbols, relationals, booleans, sets, Piecewise, Derivative, Subs, Interval): eq implies equal hash for all well-formed trees of any size; the hash of a sum is independent of dictionary iteration order; eq is an equivalence; inserting into a hash-keyed container never creates two eq keys; type-code table sanity. The model reproduces the library's 64-bit hashes exactly on every explored expression; the property itself (eq => same hash) is also checked directly on all ordered pairs of generated pools built along different construction paths.",
+        "Trusted: Coq kernel; extraction; hand transcription of the __hash__/__eq__ methods validated by exact correspondence (testing); unordered_map::find modelled as same-hash-and-eq; pointer-identity shortcut of eq() outside the model; kinds outside the model (polynomials, series, matrices, ImageSet/ConditionSet) are skipped; NaN doubles excluded by the well-formedness guard.",
+        "7 (C01)"),
+    "C02": (
+        "Rocq proof over an exact executable model of compare/__cmp__/RCPBasicKeyLess and the ordered containers + correspondence of __cmp__ matrices against the rebuilt library",
+        "Unbounded theorems: __cmp__ returns only -1/0/1 for all trees; on well-formed trees it is 0 exactly when eq, antisymmetric and transitive; RCPBasicKeyLess is a strict weak order whose incomparability is eq; an ordered container filled by successive insertion is independent of insertion order. Tied by comparing the full __cmp__ and eq matrices of generated pools (model vs library) and by checking range, cmp=0<=>eq, antisymmetry on all pairs and transitivity on all triples of the library's own results.",
+        "Trusted: as C01. Known finding (listed): NaN doubles compare as greater in both directions (excluded from the theorems by the well-formedness guard, with a refutation theorem).",
+        "7 (C02)"),
     "C33": (
         "Rocq proof over an executable state-machine model of Sieve (32-bit arithmetic, observable out-of-range accesses) + correspondence of histories against the rebuilt library",
         "Unbounded theorems (every history, every limit < 2^31, every sieve size 1..2^15 KB): no array access leaves its array, every loop terminates, generate_primes returns exactly the primes up to the limit in increasing order, iterators return the prime sequence without gaps or repeats. The model is tied to the code by running generated histories on the extracted model and on the library rebuilt from /repo and comparing every output.",
         "Trusted: Coq kernel; extraction (ExtrOcamlBasic); the hand transcription of prime_sieve.cpp into coq/C33/SieveModel.v, validated on every run by correspondence only (differential testing, not proof); floor(sqrt(double)) modelled as N.sqrt; valarray slice semantics; unbounded iterators (limit 0) are outside the theorems (Bertrand's postulate only proved below 2^31).",
         "7 (C33)"),
+    "C38": (
+        "Rocq proof (MathComp polynomials + stdlib refinement layer) over an executable model of generate_fdiff_weights_vector with its flat index layout and 32-bit index arithmetic + exact correspondence of weight vectors",
+        "Unbounded theorem fornberg_exact: for every grid of distinct rationals of any size, any centre, any max_deriv (index space below 2^32), every derivative order k <= max_deriv and every polynomial of degree below the grid size, the weights applied to the polynomial's values give exactly its k-th derivative at the centre; plus the loop invariant (Lagrange-basis Taylor coefficients after every stage), in-bounds of every array access, partition of unity. Tied to the code by comparing weight vectors exactly (model vs library) on generated grids and by an exactness oracle on monomials evaluated by the driver in GMP arithmetic.",
+        "Trusted: Coq kernel; extraction (ExtrOcamlBasic); hand transcription of finitediff.cpp validated by correspondence only; theorems cover rational grids (symbolic grids by substitution runs only); known findings: empty grid and 32-bit index-space wrap (listed).",
+        "7 (C38)"),
 }
 
 NOT_YET = "model and theorems not built yet in the time used so far (see DESIGN.md section 10 build order); not claimed"
